@@ -20,6 +20,16 @@ def parseROp (t : String) : Option Op :=
   else if k == "sp" then some (.setMarkTo v) else if k == "sc" then some (.setChunk v)
   else if k == "ck" then some .checkIoError else none
 
+/-- The read schedule of a reader case: `parseSched` plus `L<n>` — an over-reporting read whose
+claimed count is given absolutely (the harness uses it for counts near `usize::MAX`).  For the model
+every over-report is the same event: the call ends in the load-bearing `assert!`. -/
+def parseSchedR (s : String) : List Ev :=
+  if s == "-" then [] else
+  (s.splitOn ",").flatMap fun t =>
+    match t.toList with
+    | 'L' :: r => [.lie ((String.ofList r).toNat?.getD 0)]
+    | _ => parseSched t
+
 def parseROps (s : String) : List (Option Reader.Op) :=
   if s == "-" then [] else (s.splitOn ",").map parseROp
 
@@ -63,7 +73,7 @@ structure RTags where
 def runReaderCase (line : String) : String × String :=
   let fs := fields line
   let src : Source := { pre := dataField (field fs "pre"), data := dataField (field fs "d"),
-                        fault := fieldNat fs "f" == 1, sched := parseSched (field fs "s") }
+                        fault := fieldNat fs "f" == 1, sched := parseSchedR (field fs "s") }
   let r0 := (Reader.mk' src).setChunkSize (fieldNat fs "c")
   let ops := parseROps (field fs "o")
   let (outs, _, tags) := ops.foldl (fun (acc : List String × Reader × RTags) op =>
